@@ -117,6 +117,17 @@ def answer : List String → String
           | none => "out"
           | some (np, d) => "wf " ++ showBool np ++ " " ++ dtName d ++ " " ++ showBool (noSentinelB d xs)
       | none => "bad-op"
+  | ["storeddt", es] => match parseList? parseEntry? es with
+      -- dtype of the dataset `_writeParams` stores for the value list (entries may differ in numeric kind)
+      | some xs => match writeParam xs with
+        | .ok (.plain dt _ _) => dtName dt
+        | .ok (.sentinel dt _) => dtName dt
+        | .ok (.jagged dt _ _ _ _) => dtName dt
+        | .ok (.dict _ _) => "dict"
+        | .reject => "reject"
+        | .skip => "skip"
+        | .ood => "ood"
+      | none => "bad-op"
   | ["norm", es] => match parseList? parseEntry? es with
       | some xs => showList showROut (xs.map (normalise (jaggedTest xs)))
       | none => "bad-op"
